@@ -1,5 +1,5 @@
 """C10 - POST form uploads (DESIGN.md section 3, C10)."""
-from .. import flow, guards, paths
+from .. import flow, guards, inline, paths
 from ..facts import callee_def, short
 from ..report import AnchorMissing
 from ..roles import Roles
@@ -167,6 +167,79 @@ def rule_r5(chk, db):
         chk.ok("R5", "no-trim-in-form-parser", "crates/s3s/src/http/multipart.rs")
 
 
+LOWERCASE = ("make_ascii_lowercase", "to_ascii_lowercase", "to_lowercase")
+
+
+def rule_r6(chk, db):
+    """producer / consumer agreement on the spelling of form field names: the consumers look names up byte-for-byte against lower-case
+    literals (find_field_value, `strip_prefix("x-amz-meta-")`), so the parser must store the names lower-cased"""
+    # consumers that compare names case-sensitively
+    sensitive = []
+    ffv = db.body("s3s::http::multipart::Multipart::find_field_value")
+    if ffv is None:
+        raise AnchorMissing("Multipart::find_field_value not found")
+    cmp_sensitive = cmp_insensitive = 0
+    for x in db.nested(ffv):
+        for bi, t in x.calls():
+            d = callee_def(t)
+            if d.endswith(("PartialEq::ne", "PartialEq::eq", "PartialOrd::le", "PartialOrd::lt", "PartialOrd::ge", "PartialOrd::gt", "Ord::cmp")):
+                cmp_sensitive += 1
+            if short(d) in ("eq_ignore_ascii_case",) or short(d) in LOWERCASE:
+                cmp_insensitive += 1
+    if cmp_sensitive and not cmp_insensitive:
+        sensitive.append(("Multipart::find_field_value", ffv.loc()))
+    for b in db.bodies.values():
+        if b.crate != "s3s" or not any(callee_def(t).endswith("Multipart::fields") for _, t in b.calls()):
+            continue
+        for bi, t in b.calls():
+            d = callee_def(t)
+            if short(d) in ("strip_prefix", "starts_with", "eq", "ne") and d.startswith(("core::str", "core::cmp")):
+                lits = [flow.const_of(b, a) for a in t["args"]]
+                if any(c is not None and c.get("c") == "str" and c["v"] == c["v"].lower() and c["v"] for c in lits):
+                    sensitive.append(("%s: %s(%r)" % (short(b.name), short(d), [c["v"] for c in lits if c][0]), b.loc(bi)))
+    chk.floor("R6", len(sensitive), 1, "case-sensitive consumers of form field names")
+    # producer: the names of the `fields` handed to Multipart { .. } were lower-cased
+    tp = db.body("s3s::http::multipart::try_parse")
+    if tp is None:
+        raise AnchorMissing("try_parse not found")
+    ib = inline.inlined(db, tp)
+    aggs = [(bi, st["rv"]) for bi, si, st in ib.stmts() if st["rv"]["k"] == "agg" and st["rv"].get("adt", "").endswith("multipart::Multipart")]
+    chk.floor("R6.multipart", len(aggs), 1, "Multipart constructions in try_parse")
+    for bi, rv in aggs:
+        m = dict(zip(rv["fields"], rv["ops"]))
+        if "fields" not in m:
+            continue
+        sl = flow.backward(ib, m["fields"], at=bi)
+        blocks = {cb for cb, _, _ in sl.calls}
+        lowered = any(short(callee_def(t)) in LOWERCASE for _, t, _ in sl.calls)
+        for cb, t in ib.calls():
+            if lowered:
+                break
+            # a call that applies a closure to the items of the field list
+            clos = []
+            for a in t["args"]:
+                p = flow.op_place(a)
+                df = flow.single_def(ib, p["l"]) if p is not None and not p["proj"] else None
+                if df and df["kind"] == "assign" and df["rv"]["k"] == "agg" and df["rv"].get("agg") == "closure":
+                    clos.append(df["rv"]["def"])
+            if clos and t["args"]:
+                rs = flow.backward(ib, t["args"][0], at=cb)
+                if blocks & {x for x, _, _ in rs.calls} or (sl.locals & rs.locals):
+                    for c in clos:
+                        cbody = db.body(c)
+                        if cbody is not None and any(short(callee_def(t2)) in LOWERCASE for x in db.nested(cbody) for _, t2 in x.calls()):
+                            if flow.must_pass(ib, [bi], [(cb, None)]) or cb in flow.reach(ib, [0], stop_blocks=frozenset([bi])):
+                                lowered = True
+            # a direct call on an item of the list inside a loop
+            if short(callee_def(t)) in LOWERCASE and t["args"]:
+                rs = flow.backward(ib, t["args"][0], at=cb)
+                if sl.locals & rs.locals:
+                    lowered = True
+        chk.verdict(lowered or not sensitive, "R6", "field-names-lower-cased#%d" % aggs.index((bi, rv)), ib.loc(bi),
+                    "the form parser stores field names as the client spelled them, but %s compare(s) names byte-for-byte against lower-case text: "
+                    "a field spelled `X-Amz-Meta-Foo` is silently dropped from the object write" % ", ".join(x for x, _ in sensitive[:3]))
+
+
 def run(chk, db, tier):
     roles = Roles(db)
     vs = sigcore.run_common(chk, db, {"v4-post"}, ["s3s::sig_v4::methods::calculate_signature"])
@@ -179,8 +252,10 @@ def run(chk, db, tier):
         chk.guard("R3", rule_r3, db, v, roles)
     chk.rule("R4", "stream errors while reading the form / file part abort the upload; PutObject pre-emption only after successful aggregation")
     chk.rule("R5", "form field values are not passed through trimming adapters")
+    chk.rule("R6", "field names: consumers compare byte-for-byte against lower-case text, so the parser stores the names lower-cased")
     chk.guard("R4", rule_r4, db)
     chk.guard("R5", rule_r5, db)
+    chk.guard("R6", rule_r6, db)
 
 
 META = {
